@@ -77,6 +77,8 @@ pub struct Env {
     pub polls: Mutex<Vec<(String, Vec<String>)>>,
     /// descriptor the host waits for (registered eventfd / poller), the driver's waker
     pub watch_fd: Mutex<Option<RawFd>>,
+    /// io_uring: the ring, whose fdinfo shows the completion queue tail and the armed polls
+    pub ring_fd: Mutex<Option<RawFd>>,
     pub rt_waker: Mutex<Option<Waker>>,
     pub timer_early: AtomicBool,
     /// negative control: a wake() that sets its condition but never calls the waker
@@ -123,6 +125,7 @@ impl Env {
             deadlines: Mutex::new(BTreeMap::new()),
             polls: Mutex::new(vec![]),
             watch_fd: Mutex::new(None),
+            ring_fd: Mutex::new(None),
             rt_waker: Mutex::new(None),
             timer_early: AtomicBool::new(false),
             neg_skip_wake: std::env::var("VERIF_NEG_SKIP_WAKE").is_ok(),
@@ -410,4 +413,24 @@ pub fn readable_within(fd: RawFd, ms: i32) -> bool {
     let mut p = libc::pollfd { fd, events: libc::POLLIN, revents: 0 };
     let n = unsafe { libc::poll(&mut p, 1, ms) };
     n > 0 && (p.revents & libc::POLLIN) != 0
+}
+
+fn fdinfo(fd: RawFd) -> Option<String> {
+    std::fs::read_to_string(format!("/proc/self/fdinfo/{fd}")).ok()
+}
+
+/// Tail of the completion queue of an io_uring descriptor (entries posted so far).
+pub fn cq_tail(fd: RawFd) -> Option<u64> {
+    let s = fdinfo(fd)?;
+    for l in s.lines() {
+        if let Some(v) = l.strip_prefix("CqTail:") {
+            return v.trim().parse().ok();
+        }
+    }
+    None
+}
+
+/// Is a PollAdd (opcode 6: the notifier's multishot poll) armed in the ring?
+pub fn polladd_armed(fd: RawFd) -> bool {
+    fdinfo(fd).map(|s| s.lines().any(|l| l.trim_start().starts_with("op=6,"))).unwrap_or(false)
 }
